@@ -47,6 +47,11 @@ def run(m, chk):
             ok = not miss
             chk.ob("DEP-MAY", f"{q}: result at line {ctx.cfg.nodes[nid].ast.lineno} depends on both operands", ok, loc=r.loc(ctx, ctx.cfg.nodes[nid].ast),
                    detail="" if ok else f"{q}: the vector returned at {r.loc(ctx, ctx.cfg.nodes[nid].ast)} does not depend on {', '.join(miss)}", func=q, construct=f"result ignores {', '.join(miss)}")
+    from .extra import both_mults, mult_keep
+
+    both_mults(r, chk, IKV + ".__or__")
+    both_mults(r, chk, IKV + ".__and__")
+    mult_keep(r, chk, [IKV + ".__or__", IKV + ".__and__"], floor=2)
     for q in (KV + ".__or__", KV + ".__and__"):
         ctx = r.root(q)
         for nid, v in sorted(ctx.ret_sites.items()):
